@@ -132,8 +132,57 @@ func factsHashring() {
 	emitStr("simpleGetNIndex", "pkg/receive/hashring.go simpleHashring.GetN: the index expression", sidx)
 
 	// ---- C19 (known finding): metrics registration of shuffle shard rings and the reload sequence
-	emitList("shuffleShardMetricsRegistration", "pkg/receive/hashring.go newShuffleShardCacheMetrics: how the collectors are registered",
-		callSeq(body(fn(f, "", "newShuffleShardCacheMetrics")), "promauto.With"))
+	// skeleton of the constructor: lookup of the shared metrics, user count, registration
+	var shared []string
+	if b := body(fn(f, "", "newShuffleShardCacheMetrics")); b != nil {
+		for _, st := range b.(*ast.BlockStmt).List {
+			switch x := st.(type) {
+			case *ast.IfStmt:
+				shared = append(shared, "if:"+text(x.Cond))
+				for _, y := range x.Body.List {
+					switch z := y.(type) {
+					case *ast.IncDecStmt:
+						shared = append(shared, text(z))
+					case *ast.ReturnStmt:
+						shared = append(shared, "return")
+					}
+				}
+			case *ast.AssignStmt:
+				for _, c := range calls(x, "registerShuffleShardCacheMetrics") {
+					shared = append(shared, callName(c))
+				}
+			}
+		}
+	}
+	emitList("shuffleShardMetricsShared", "pkg/receive/hashring.go newShuffleShardCacheMetrics: shared metrics are looked up and counted before anything is registered", shared)
+	var closeSk []string
+	if b := body(fn(f, "shuffleShardCacheMetrics", "close")); b != nil {
+		seenUnreg := false
+		for _, st := range b.(*ast.BlockStmt).List {
+			switch x := st.(type) {
+			case *ast.IncDecStmt:
+				closeSk = append(closeSk, text(x))
+			case *ast.IfStmt:
+				closeSk = append(closeSk, "if:"+text(x.Cond))
+				for _, y := range x.Body.List {
+					if _, ok := y.(*ast.ReturnStmt); ok {
+						closeSk = append(closeSk, "return")
+					}
+				}
+			case *ast.ExprStmt:
+				if c, ok := x.X.(*ast.CallExpr); ok {
+					n := callName(c)
+					if n == "delete" {
+						closeSk = append(closeSk, "delete")
+					} else if strings.HasSuffix(n, ".Unregister") && !seenUnreg {
+						seenUnreg = true
+						closeSk = append(closeSk, "Unregister")
+					}
+				}
+			}
+		}
+	}
+	emitList("shuffleShardMetricsClose", "pkg/receive/hashring.go shuffleShardCacheMetrics.close: only the last user unregisters", closeSk)
 	var reload []string
 	if fr := parse("cmd/thanos/receive.go"); fr != nil {
 		for _, d := range fr.Decls {
